@@ -159,7 +159,12 @@ def check(ctx, rep):
     good = False
     if t1 is not None and t2 is not None:
         b1 = util.bexpr(ctx, t1, t1.ret)
-        b2 = util.bexpr(ctx, t2, t2.ret)
+        r2 = t2.ret
+        fp = c03.default_group_fast_path(ctx, t2)
+        if fp is not None:
+            # (the built-in constant only where the announced group is the built-in one: C03)
+            r2 = util.map_term(strip(t2.ret), lambda t_: strip(fp[1]) if t_ == fp[0] else None)
+        b2 = util.bexpr(ctx, t2, r2)
         good = b1[0] == "H" and b2[0] == "H" and b1[1][1:] == b2[1][1:] and b1[1][0][0] == "const" and b2[1][0] == ("call", "srp_internal::calculate_xor_hash", (P(6), P(7)))
     elif t1 is not None and t2 is None:
         # the client's M1 function was folded into its caller: the end-to-end transcript of the
